@@ -116,6 +116,15 @@ def run(chk):
     made = 0
     while made < n:
         base = gen.gen_model(rng)
+        if rng.random() < 0.2:
+            # sizes that differ by less than any closeness tolerance are still different sizes: the inferred size
+            # function is "exponential", not "constant"
+            for dm in base["demes"]:
+                for j, ep in enumerate(dm["epochs"]):
+                    if not (j == 0 and math.isinf(dm["start_time"])) and rng.random() < 0.5:
+                        ep["end_size"] = float(ep["start_size"]) * rng.choice([1 + 1e-10, 1 - 1e-12, 1 + 2.0 ** -52])
+                        if ep["end_size"] != ep["start_size"] and ep["size_function"] == "constant":
+                            ep["size_function"] = "exponential"
         r0 = resolve(base)
         if r0[0] != "ok":
             continue
